@@ -109,6 +109,9 @@ def run_close(rep, tier):
     import autograd.test_util as T
     name = f"{FN}.scalar_close"
     rep.function(name, T.scalar_close)
+    rep.uncover("C18: rounding behaviour of IEEE doubles inside the checker (K1 treats floats as reals; K4 samples it with fixed seeds)")
+    rep.uncover("C18: truncation error of the central difference for an arbitrary differentiated function (needs third-derivative bounds of user code)")
+    rep.uncover("C18: the >= 0.99 rejection probability as a statement over the checker's continuous distribution of projections (K4: frequency over N fixed seeds only)")
     rep.assume("scalar_close: IEEE doubles treated as mathematical reals; `/` by zero = not accepted (Python floats raise ZeroDivisionError, NumPy doubles give inf)")
     try:
         tree = ast.parse(textwrap.dedent(inspect.getsource(T.scalar_close))).body[0]
